@@ -182,24 +182,33 @@ pub fn judge_jar(rep: &mut Report, inputs: &[(String, Class)], others: &[(String
     let by_class: BTreeMap<&str, (&Row, Option<&'static str>)> = rows.iter().zip(&exp.verdicts).map(|(r, v)| (r.class.as_str(), (r, *v))).collect();
     let mut expected_entries: BTreeSet<String> = BTreeSet::new();
     let mut observed_names = BTreeMap::new();
-    for (old, model) in inputs {
-        let new = exp.names.get(old).cloned().unwrap_or_else(|| old.clone());
-        let ename = format!("{new}.class");
+    // ---- pass 1: every input class must be stored under the name the reference gives it
+    let new_name = |old: &String| exp.names.get(old).cloned().unwrap_or_else(|| old.clone());
+    let misplaced: BTreeSet<&str> = inputs.iter().filter(|(old, _)| !out_map.contains_key(format!("{}.class", new_name(old)).as_str())).map(|(o, _)| o.as_str()).collect();
+    for (old, _) in inputs {
+        let ename = format!("{}.class", new_name(old));
         expected_entries.insert(ename.clone());
+        if !misplaced.contains(old.as_str()) { observed_names.insert(old.clone(), Some(new_name(old))); continue; }
+        ok = false;
+        observed_names.insert(old.clone(), None);
         let row_info = by_class.get(old.as_str());
-        let Some(entry) = out_map.get(ename.as_str()) else {
-            ok = false;
-            let old_there = out_map.contains_key(format!("{old}.class").as_str());
-            let sig = match row_info {
-                Some((r, None)) => if old_there { format!("C14 jar: listed class keeps its name although its row applies ({})", r.kind().name()) } else { format!("C14 jar: applying row ({}): class is not stored as Enclosing$Inner (transitively)", r.kind().name()) },
-                Some((_, Some(why))) => format!("C14 jar: listed class renamed although its row does not apply ({why})"),
-                None => "C14 jar: class without a row is missing under its name".to_string(),
-            };
-            observed_names.insert(old.clone(), None);
-            bad(rep, sig, json!({"class": old, "expected entry": ename, "entries": out.iter().map(|(n, _)| n).collect::<Vec<_>>()}));
-            continue;
+        // a class below a misplaced enclosing class is misplaced as a consequence: only the topmost one is reported
+        if let Some((r, _)) = row_info { if misplaced.contains(r.encl.as_str()) { rep.count("jar.misplaced_as_a_consequence_of_its_enclosing_class"); continue; } }
+        let old_there = out_map.contains_key(format!("{old}.class").as_str());
+        let sig = match row_info {
+            Some((r, None)) => if old_there { format!("C14 jar: listed class keeps its name although its row applies ({})", r.kind().name()) } else { format!("C14 jar: applying row ({}): class is not stored as Enclosing$Inner (transitively)", r.kind().name()) },
+            Some((_, Some(why))) => format!("C14 jar: listed class renamed although its row does not apply ({why})"),
+            None => "C14 jar: class without a row is missing under its name".to_string(),
         };
-        observed_names.insert(old.clone(), Some(new.clone()));
+        bad(rep, sig, json!({"class": old, "expected entry": ename, "entries": out.iter().map(|(n, _)| n).collect::<Vec<_>>()}));
+    }
+    let names_ok = misplaced.is_empty();
+    if !names_ok { rep.count("jar.fact_comparison_skipped_because_class_names_differ"); }
+    // ---- pass 2: the facts of every class (only when the names are right: otherwise every reference differs as a consequence)
+    for (old, model) in inputs {
+        if !names_ok { break; }
+        let ename = format!("{}.class", new_name(old));
+        let Some(entry) = out_map.get(ename.as_str()) else { continue };
         let bytes = match entry {
             OutEntry::Class(Ok(b)) => b,
             OutEntry::Class(Err(e)) => { ok = false; bad(rep, format!("C14 jar: nested class cannot be written: {}", crate::mapside::err_template(e)), json!({"class": old, "error": e})); continue; }
@@ -262,7 +271,7 @@ pub fn judge_jar(rep: &mut Report, inputs: &[(String, Class)], others: &[(String
         let same = match (e, out_map.get(n.as_str())) { (InEntry::Other(a), Some(OutEntry::Other(b))) => a == b, (InEntry::Dir, Some(OutEntry::Dir)) => true, _ => false };
         if !same { ok = false; bad(rep, "C14 jar: a non-class entry is lost or changed".into(), json!({"entry": n})); } else { rep.count("jar.other_entries_kept"); }
     }
-    for (n, _) in out { if !expected_entries.contains(n) { ok = false; bad(rep, "C14 jar: unexpected entry in the nested jar".into(), json!({"entry": n, "expected entries": expected_entries})); } }
+    for (n, _) in out { if names_ok && !expected_entries.contains(n) { ok = false; bad(rep, "C14 jar: unexpected entry in the nested jar".into(), json!({"entry": n, "expected entries": expected_entries})); } }
     JarJudgement { observed_names, ok }
 }
 
